@@ -37,11 +37,15 @@ def refAtomsR (confs : List (List AtomRec)) : List AtomRec :=
 def conformations (recs : List AtomRec) : List (String × List AtomRec) :=
   (sortedConfs (confOrder recs)).map fun n => (n, recs.filter fun a => a.conf == n)
 
-/-- `top_up_conformations` -/
-def toppedUp (recs : List AtomRec) : List (String × List AtomRec) :=
+/-- `top_up_conformations`: every conformation with its own atoms and the atoms copied into it -/
+def toppedUp2 (recs : List AtomRec) : List (String × List AtomRec × List AtomRec) :=
   let cs := conformations recs
   let ref := refAtomsR (cs.map (·.2))
-  cs.map fun c => (c.1, c.2 ++ copyLoopR (c.2.map residueLabel) (TopUp.namesOf (c.2.map keyOf)) ref)
+  cs.map fun c => (c.1, c.2, copyLoopR (c.2.map residueLabel) (TopUp.namesOf (c.2.map keyOf)) ref)
+
+/-- `top_up_conformations`: the atom list of every conformation afterwards -/
+def toppedUp (recs : List AtomRec) : List (String × List AtomRec) :=
+  (toppedUp2 recs).map fun c => (c.1, c.2.1 ++ c.2.2)
 
 /-- a record without the columns nothing after the parser reads -/
 def core (a : AtomRec) : AtomRec := { a with serial := 0, occ := "", beta := "" }
@@ -52,9 +56,9 @@ variable {α : Type} [Add α] [Sub α] [Mul α] [Div α] [Neg α] [OfNat α 0] [
   [Trig α] [Bonds.CellIdx α] [Profiles.PowLog α]
 
 /-- a parsed atom as the set-up pipeline receives it; `dec` turns a fixed-point coordinate field into a scalar -/
-def toPAtom (dec : Int → Nat → α) (a : AtomRec) : Pipe.PAtom α :=
+def toPAtom (dec : Int → Nat → α) (reg : Bool) (a : AtomRec) : Pipe.PAtom α :=
   let d : Pipe.PAtom α := Pipe.PAtom.dflt
-  { d with het := a.typ == "hetatm", name := a.name, elem := a.element, resName := a.resName, chain := a.chain, resNum := a.resNum, icode := a.icode, terminal := a.terminal, pos := ⟨dec a.xm a.xd, dec a.ym a.yd, dec a.zm a.zd⟩, live := true }
+  { d with reg := reg, het := a.typ == "hetatm", name := a.name, elem := a.element, resName := a.resName, chain := a.chain, resNum := a.resNum, icode := a.icode, terminal := a.terminal, pos := ⟨dec a.xm a.xd, dec a.ym a.yd, dec a.zm a.zd⟩, live := true }
 
 /-- the scoring model on a prepared conformation -/
 def scorePrepared (sp : Scoring.SP α) (r : Pipe.Prepared α) : List (Scoring.GOut α) :=
@@ -100,6 +104,8 @@ structure Scored (α : Type) where
   het : Bool                 -- `group.atom.type == 'hetatm'`
   ctg : Option String        -- label of `coupled_titrating_group`
   starred : Bool             -- `len(non_covalently_coupled_groups) > 0`
+  q : α                      -- `group.charge`
+  titratable : Bool
   model : α
   nv : α
   buried : α
@@ -134,7 +140,7 @@ def scoredOf (cp : CoupleSearch.CP α) (r : Pipe.Prepared α) (outs : List (Scor
     { resLabel := atomLabel a, type := g.type, resType := g.resType, label := g.label,
       use := g.titratable || (g.resType == "CYS" && !g.excludeCys), chain := a.chain, het := a.het,
       ctg := o.ctg.bind fun c => (r.groups[c]?).map (·.label), starred := !(st.coupled.getD k []).isEmpty,
-      model := g.model, nv := ((o.nv : Nat) : α), buried := o.buried,
+      q := g.q, titratable := g.titratable, model := g.model, nv := ((o.nv : Nat) : α), buried := o.buried,
       grec := st.gs.getD k dg }
 
 /-- a group of the average conformation -/
@@ -146,6 +152,8 @@ structure AvrGroup (α : Type) where
   het : Bool
   ctg : Option String
   starred : Bool
+  q : α
+  titratable : Bool
   model : α
   nv : α
   buried : α
@@ -180,7 +188,7 @@ def averageOf (confs : List (List (Scored α))) : List (AvrGroup α) :=
       if acc.any (fun e => e.1.resLabel == g.resLabel && e.1.type == g.type) then acc
       else
         let found := confs.filterMap fun c => findGroup c g
-        acc ++ [(g, { label := g.label, type := g.type, resType := g.resType, chain := g.chain, het := g.het, ctg := g.ctg, starred := g.starred, model := g.model,
+        acc ++ [(g, { label := g.label, type := g.type, resType := g.resType, chain := g.chain, het := g.het, ctg := g.ctg, starred := g.starred, q := g.q, titratable := g.titratable, model := g.model,
                       nv := Dets.avgScalar z (found.map (·.nv)), buried := Dets.avgScalar z (found.map (·.buried)),
                       acc := averageL z (found.map (·.grec)) })]) acc) []).map (·.2)
 
@@ -190,8 +198,8 @@ abbrev ConfOut (α : Type) := String × Option (Pipe.Prepared α × List (Scorin
 /-- everything after the parser; the serial number, the occupancy and the B-factor of a record are dropped first (nothing
     downstream is given them) -/
 def afterParse (P : Pipe.PP α) (sp : Scoring.SP α) (dec : Int → Nat → α) (o : Pipe.Opts) (recs : List AtomRec) : List (ConfOut α) :=
-  (toppedUp (recs.map core)).map fun c =>
-    (c.1, (Pipe.prepare P o (c.2.map (toPAtom dec)).toArray).map fun r => (r, scorePrepared sp r))
+  (toppedUp2 (recs.map core)).map fun c =>
+    (c.1, (Pipe.prepare P o (c.2.1.map (toPAtom dec true) ++ c.2.2.map (toPAtom dec false)).toArray).map fun r => (r, scorePrepared sp r))
 
 /-- the program on a PDB text: `ValueError` for a text without atoms, the parser's errors, else one entry per conformation -/
 def run (P : Pipe.PP α) (sp : Scoring.SP α) (dec : Int → Nat → α) (po : Pdb.Opts) (o : Pipe.Opts) (lines : List Str) :
